@@ -32,9 +32,18 @@ package accumulated_scenario_filters
 //@     decreases k - newPos
 //@ end
 
-// updateLocationIfTAlreadyExists (`for j := range len(ts)`) is NOT under contract: the loop variable of a
-// range-over-int loop has no name in the spec language (SSA phi comment "rangeint.iter"), so the
-// invariant 0 <= j < len(ts) cannot be written (engine limitation, reported).
+// If t is already in ts it is moved to slot i (when i is left of it); an empty list never "contains" t.
+//@ func updateLocationIfTAlreadyExists
+//@   props C10
+//@   requires 0 <= i
+//@   modifies ts[*]
+//@   loop 1
+//@     invariant 0 <= rangeint_iter && rangeint_iter < len(ts)
+//@     decreases len(ts) - rangeint_iter
+//@   ensures [foundMeansNonEmpty] result1 ==> len(ts) > 0 && result0 == ts
+//@   ensures [emptyNeverFound] len(ts) == 0 ==> !result1
+//@ end
+
 // orderedInsert is NOT under contract: slices.BinarySearchFunc / slices.Insert (generic library code
 // calling back the cmp closure) are outside the subset; its safety condition "replace ==> the slot
 // found is < len(ts)" (in particular len(ts) > 0) is exactly insertWithoutIncreasingListSize's
